@@ -216,7 +216,12 @@ func c13Scenarios(disk bool) []*schedScenario {
 						if err != nil {
 							return 400, nil, nil
 						}
-						return 200, world.BuildOCSP(world.OCSPAnswer{Status: xocsp.Good, Serial: r.SerialNumber, Issuer: iss, Signer: iss, ThisUpdate: vsched.Epoch.Add(-time.Minute)}), nil
+						st := xocsp.Good
+						if iss == oc.caA && r.SerialNumber.Cmp(oc.c1.Cert.SerialNumber) == 0 {
+							// c1 of issuer A is revoked: a lookup which ends up judging another lookup's response answers OK
+							st = xocsp.Revoked
+						}
+						return 200, world.BuildOCSP(world.OCSPAnswer{Status: st, Serial: r.SerialNumber, Issuer: iss, Signer: iss, ThisUpdate: vsched.Epoch.Add(-time.Minute)}), nil
 					}}
 				}
 				x.Vals["ow"] = []*OW{NewOW(false, 10*time.Minute, nil, net), NewOW(false, 10*time.Minute, nil, net)}
